@@ -336,6 +336,37 @@ def run_cf_in(spec, res, d, h):
         except Exception as e:
             res.hook('time2idx.return')
             res.note('time2idx-raised:%s' % type(e).__name__)
+    if not spec.get('disk'):
+        # the stored values re-written in place (a template re-dated): the
+        # next decode is of the values stored NOW
+        try:
+            vals2 = vals[::-1] + 1 if spec['form'] % 2 else vals + 1
+            f.variables['time'][:] = vals2
+            want = [cf_tuple(t) for t in np.atleast_1d(cftime.num2date(
+                np.asarray(vals2, 'f8'), '%s since %s' % (
+                    spec['unit'], spec['canon']), cal or 'standard'))]
+        except Exception:
+            res.note('no-oracle:redated')
+            return
+        try:
+            again = [as_utc_tuple(t) for t in np.atleast_1d(f.getTimes())]
+            res.hook('getTimes.return')
+        except Exception as e:
+            res.note('getTimes-raised:%s' % type(e).__name__)
+            return
+        res.facet('cf:redated-in-place')
+        if again != want:
+            j = next((i for i, (a, b) in enumerate(zip(again, want))
+                      if a != b), 0)
+            res.viol('wrong-instant:cf:%s' % (
+                'standard' if cal in (None, 'standard', 'gregorian',
+                                      'proleptic_gregorian')
+                else 'nonstandard'),
+                'units %r calendar %r: after the time values were '
+                're-written in place, value %r decodes to %s, cftime says '
+                '%s' % (units, cal, vals2[j], again[j] if j < len(again)
+                        else None, want[j]), calendar=cal,
+                unit=spec['unit'], bounds='redated')
 
 
 def run_ioapi(spec, res):
